@@ -60,6 +60,9 @@ pub fn string_cfg(id: &str) -> GenCfg {
         const_into_str: false,
         min_variants: 0,
         phf: false,
+        ci_heavy: false,
+        idents: vec![],
+        sync_only: false,
     };
     match id {
         "C01" => {}
@@ -73,6 +76,14 @@ pub fn string_cfg(id: &str) -> GenCfg {
 pub fn module_for(id: &str, spec: &EnumSpec) -> ModuleSrc {
     match id {
         "C01" => emit::module_string(spec, &ModOpts { property: id, run_fn: "vrt::strfam::c01", twin: None }),
+        "C02" => emit::module_string(spec, &ModOpts { property: id, run_fn: "vrt::strfam::c02", twin: None }),
+        "C03" => emit::module_string(spec, &ModOpts { property: id, run_fn: "vrt::strfam::c03", twin: Some(emit::Twin::Deprecated) }),
+        "C07" => emit::module_string(spec, &ModOpts { property: id, run_fn: "vrt::strfam::c07", twin: None }),
+        "C11" => emit::module_string(spec, &ModOpts { property: id, run_fn: "vrt::strfam::c11", twin: None }),
+        "C12" => emit::module_string(spec, &ModOpts { property: id, run_fn: "vrt::strfam::c12", twin: None }),
+        "C16" => emit::module_string(spec, &ModOpts { property: id, run_fn: "vrt::strfam::c16", twin: Some(emit::Twin::Phf) }),
+        "C17" => emit::module_string(spec, &ModOpts { property: id, run_fn: "vrt::strfam::c17", twin: None }),
+        "C18" => emit::module_string(spec, &ModOpts { property: id, run_fn: "vrt::strfam::c18", twin: None }),
         "C04" => emit::module_iter(spec, &ModOpts { property: id, run_fn: "vrt::iterfam::c04", twin: None }),
         "C05" => emit::module_iter(spec, &ModOpts { property: id, run_fn: "vrt::iterfam::c05", twin: None }),
         "C08" => emit::module_iter(spec, &ModOpts { property: id, run_fn: "vrt::iterfam::c08", twin: None }),
@@ -111,6 +122,212 @@ pub fn plan(id: &str, tier: &str, seed: u64, round: u64) -> Plan {
                     "glue (index match, payload rendering) emitted by the harness is trusted".into(),
                     "spellings of distinct variants do not overlap (guaranteed by the generator's repair step)".into(),
                 ],
+            }
+        }
+        "C02" => {
+            let n = if thorough { 480 } else { 192 };
+            let mut cfg = string_cfg(id);
+            cfg.derives = derives(&["EnumString", "Display", "AsRefStr", "IntoStaticStr", "EnumMessage"]);
+            cfg.allow_transparent = true;
+            // EnumMessage / const_into_str match on `&self`, which rustc rejects for a zero-variant enum
+            cfg.min_variants = 1;
+            let mut specs: Vec<EnumSpec> = (0..n)
+                .map(|i| {
+                    let mut c = cfg.clone();
+                    // every accepted style string appears regularly
+                    c.force_style = if i % 5 == 4 { None } else { Some(vmodel::model::STYLES[i % 16].to_string()) };
+                    c.const_into_str = i % 3 == 0;
+                    if c.const_into_str {
+                        c.allow_transparent = false;
+                    }
+                    gen::gen_string(&mut rg, &c)
+                })
+                .collect();
+            name_specs(&mut specs, round);
+            Plan {
+                specs,
+                params: params(&[("draws", if thorough { 16 } else { 4 })]),
+                strum_features: vec!["derive".into()],
+                profiles: vec!["dev"],
+                policy: Policy::TaggedOnly,
+                rule: "programs: prefix-less enums deriving EnumString + Display + AsRefStr + IntoStaticStr + EnumMessage, all 16 accepted serialize_all strings (each forced regularly) or none, every mix of serialize/to_string, all kinds, generics, const_into_str; every enabled non-default non-transparent variant is built with generated payloads, printed by every printer (Display, as_ref, From<E>, From<&E>, into_str) and parsed back: same variant, payload reset to defaults; every get_serializations() string parses back. Non-trivial = printed name differs from the identifier; distinct by (program, variant, printer) and (program, variant, serialization).".into(),
+                assumptions: vec!["parse-side payload expectation as in C01".into()],
+            }
+        }
+        "C03" => {
+            let n = if thorough { 480 } else { 192 };
+            let mut cfg = string_cfg(id);
+            cfg.derives = derives(&["Display", "AsRefStr", "IntoStaticStr", "VariantNames"]);
+            cfg.allow_default = false;
+            cfg.allow_transparent = true;
+            cfg.allow_prefix = true;
+            cfg.allow_ci = false;
+            cfg.allow_default_with = false;
+            cfg.const_into_str = true;
+            cfg.min_variants = 1;
+            let mut specs: Vec<EnumSpec> = (0..n)
+                .map(|i| {
+                    let mut c = cfg.clone();
+                    c.force_style = if i % 5 == 4 { None } else { Some(vmodel::model::STYLES[i % 16].to_string()) };
+                    gen::gen_string(&mut rg, &c)
+                })
+                .collect();
+            name_specs(&mut specs, round);
+            Plan {
+                specs,
+                params: params(&[]),
+                strum_features: vec!["derive".into()],
+                profiles: vec!["dev"],
+                policy: Policy::TaggedOnly,
+                rule: "programs: twin enums from one spec (Display+AsRefStr+IntoStaticStr+VariantNames / deprecated ToString+AsStaticStr), {no attr, to_string, 1..3 serialize of distinct lengths in every order, both} x prefix (incl. empty, non-ASCII) x 16 styles x const_into_str on/off x all kinds x generics. Oracle: model canonical name; up to eight observations per variant (format!, ToString derive, as_ref, as_static, From<E>, From<&E>, into_str, const-evaluated into_str) plus VariantNames::VARIANTS at every declaration index. Non-trivial = longest serialize literal not last, or a prefix, or a style that changes the identifier; distinct by (program, variant, derive).".into(),
+                assumptions: vec!["longest serialize literal is unique (generator); statement silent on ties".into()],
+            }
+        }
+        "C07" => {
+            // layer 2 (compiled): dictionary x styles x all name-printing / parsing derives
+            let mut dict: Vec<String> = vmodel::pools::IDENTS.iter().chain(vmodel::pools::C07_DICT.iter()).map(|s| s.to_string()).collect();
+            let mut specs = Vec::new();
+            let reps = if thorough { 3 } else { 1 };
+            for _ in 0..reps {
+                for st in 0..17usize {
+                    rg.shuffle(&mut dict);
+                    for chunk in dict.chunks(8) {
+                        let mut c = string_cfg(id);
+                        c.derives = derives(&["VariantNames", "Display", "AsRefStr", "IntoStaticStr", "EnumString", "EnumMessage"]);
+                        c.force_style = if st == 16 { Some("__none__".into()) } else { Some(vmodel::model::STYLES[st].to_string()) };
+                        c.allow_default = false;
+                        c.allow_disabled = false;
+                        c.allow_generics = false;
+                        c.allow_ci = false;
+                        c.idents = chunk.to_vec();
+                        c.min_variants = chunk.len();
+                        c.max_variants = chunk.len();
+                        specs.push(gen::gen_string(&mut rg, &c));
+                    }
+                }
+            }
+            name_specs(&mut specs, round);
+            Plan {
+                specs,
+                params: params(&[]),
+                strum_features: vec!["derive".into()],
+                profiles: vec!["dev"],
+                policy: Policy::TaggedOnly,
+                rule: "layer 2 (compiled): a dictionary of ~145 realistic identifiers (PascalCase, acronyms, digits, underscores, non-ASCII) x the 16 accepted serialize_all strings and none x the derives VariantNames, Display, AsRefStr, IntoStaticStr, EnumString, EnumMessage::get_serializations: all printers return the independent word-scanner model's conversion, from_str accepts it, get_serializations is exactly it, and variants with serialize/to_string are never re-cased (their cased identifier is rejected). Layer 1 (in-process, exhaustive identifiers) is reported under `inprocess`. Non-trivial = identifier with >= 2 words, an uppercase run or a digit; distinct by (identifier, style, derive).".into(),
+                assumptions: vec!["A1: caseless characters (digits) inherit the class of the preceding character; heck is what strum documents it uses".into(), "the property text counts 17 accepted style strings; strum's parser accepts 16 distinct strings, all are covered".into()],
+            }
+        }
+        "C11" => {
+            let n = if thorough { 384 } else { 128 };
+            let sets: [&[&str]; 5] = [
+                &["EnumString", "Display"],
+                &["EnumString", "Display", "AsRefStr", "IntoStaticStr"],
+                &["Display"],
+                &["Display", "AsRefStr"],
+                &["EnumString", "Display", "AsRefStr"],
+            ];
+            let mut specs = Vec::new();
+            let mut i = 0;
+            while specs.len() < n {
+                i += 1;
+                let mut c = string_cfg(id);
+                c.derives = derives(sets[i % 5]);
+                c.allow_transparent = true;
+                c.allow_default = c.derives.iter().any(|d| d == "EnumString");
+                let s = gen::gen_string(&mut rg, &c);
+                if s.variants.iter().any(|v| !v.disabled() && (v.is_default() || v.transparent())) {
+                    specs.push(s);
+                }
+            }
+            name_specs(&mut specs, round);
+            Plan {
+                specs,
+                params: params(&[("cases", if thorough { 5000 } else { 800 }), ("max_flip_letters", if thorough { 10 } else { 6 }), ("draws", if thorough { 8 } else { 3 })]),
+                strum_features: vec!["derive".into()],
+                profiles: vec!["dev"],
+                policy: Policy::TaggedOnly,
+                rule: "programs: enums with a default variant (tuple or single named field; inner String, Box<str>, Rc<str>, Arc<str>, a From<&str> wrapper) and/or transparent variants (inner String, &'static str, integers, a nested enum, a Spy type printing the formatter state), derive sets chosen so that the inner type satisfies them. Oracle: every input with no model match is captured verbatim (byte for byte) and from_str(s)?.to_string() == s; for transparent variants and default variants without to_string the whole 3740-cell format grid, as_ref and From<..> for &'static str equal what the inner field gives. Non-trivial = captured input within one edit / case flip / look-alike of a spelling or containing whitespace / non-ASCII; grid cell that pads or truncates.".into(),
+                assumptions: vec!["the inner field is located by a hand-written match emitted by the harness".into()],
+            }
+        }
+        "C12" => {
+            let n = if thorough { 384 } else { 160 };
+            let mut cfg = string_cfg(id);
+            cfg.ci_heavy = true;
+            cfg.allow_default_with = false;
+            let mut specs: Vec<EnumSpec> = (0..n).map(|_| gen::gen_string(&mut rg, &cfg)).collect();
+            name_specs(&mut specs, round);
+            Plan {
+                specs,
+                params: params(&[("cases", if thorough { 5000 } else { 400 }), ("max_flip_letters", if thorough { 12 } else { 10 })]),
+                strum_features: vec!["derive".into()],
+                profiles: vec!["dev"],
+                policy: Policy::TaggedOnly,
+                rule: "programs: EnumString enums x enum-level ascii_case_insensitive on/off x variant flag absent / bare / = true / = false, spellings mixing ASCII and non-ASCII letters (ü/Ü, ß/ẞ, İ, Kelvin sign, long s, dotless i). Inputs: ALL 2^k case flips of each spelling (k <= max_flip_letters), every single look-alike substitution and every case flip of a non-ASCII letter, the same against case-sensitive variants, plus generated inputs. Oracle: reference parser folding only A-Z/a-z byte-wise. Non-trivial = non-identity flip, look-alike, edit or derived name on an enum with >= 2 enabled variants; distinct by (program, input).".into(),
+                assumptions: vec!["as C01".into()],
+            }
+        }
+        "C16" => {
+            let n = if thorough { 384 } else { 160 };
+            let mut cfg = string_cfg(id);
+            cfg.allow_fields = false;
+            cfg.allow_generics = false;
+            cfg.ci_heavy = true;
+            cfg.sync_only = true;
+            cfg.allow_default_with = false;
+            let mut specs: Vec<EnumSpec> = (0..n).map(|_| gen::gen_string(&mut rg, &cfg)).collect();
+            name_specs(&mut specs, round);
+            Plan {
+                specs,
+                params: params(&[("cases", if thorough { 5000 } else { 400 }), ("max_flip_letters", if thorough { 10 } else { 8 })]),
+                strum_features: vec!["derive".into(), "phf".into()],
+                profiles: vec!["dev"],
+                policy: Policy::TaggedOnly,
+                rule: "programs: field-less Clone enums of C01's domain (optionally one default variant), each emitted twice from one spec: plain and with #[strum(use_phf)] (strum feature phf on); spellings mixed-case, all-lower, all-upper, caseless (digits, punctuation, non-ASCII), case-insensitivity at enum and variant level. Oracle: differential (identical PObs from both twins for every input) + the reference model as third voice; the phf twin must compile whenever the plain twin does (errors confined to the twin's tagged range are violations). Inputs as C01/C12. Non-trivial as C01.".into(),
+                assumptions: vec!["as C01".into()],
+            }
+        }
+        "C17" => {
+            let n = if thorough { 400 } else { 160 };
+            let mut cfg = string_cfg(id);
+            cfg.derives = derives(&["Display"]);
+            cfg.allow_default = false;
+            cfg.allow_prefix = true;
+            cfg.allow_placeholders = true;
+            cfg.allow_ci = false;
+            cfg.allow_default_with = false;
+            let mut specs: Vec<EnumSpec> = (0..n).map(|_| gen::gen_string(&mut rg, &cfg)).collect();
+            name_specs(&mut specs, round);
+            Plan {
+                specs,
+                params: params(&[("payload_draws", if thorough { 256 } else { 32 })]),
+                strum_features: vec!["derive".into()],
+                profiles: vec!["dev"],
+                policy: Policy::TaggedOnly,
+                rule: "programs: Display enums x all kinds x naming attributes x prefix x styles; fixed names (incl. multi-byte): the 22 fill/align/flag literals x width 0..16 x precision none/0..8 = 3740 renderings per variant must equal the same renderings of the canonical &str. Placeholder literals generated from pieces (text, {{ }}, {name[:spec]}/{index[:spec]} over every subset and order of named fields, every order of all tuple indices, specs >4 <6 ^5 03 + ? #x .2 e ...): the expected string is produced by std's format! on the IDENTICAL literal with the same payload (emitted by the harness next to the enum), payloads incl. extremes. Non-trivial = grid cell that pads or truncates; literal with >= 2 placeholders, a spec or an escaped brace; distinct by (program, variant, cell / payload).".into(),
+                assumptions: vec!["outer format spec on an interpolated variant is not asserted (statement silent)".into()],
+            }
+        }
+        "C18" => {
+            let n = if thorough { 384 } else { 160 };
+            let mut cfg = string_cfg(id);
+            cfg.allow_default = false;
+            let mut specs: Vec<EnumSpec> = (0..n)
+                .map(|i| {
+                    let mut c = cfg.clone();
+                    c.parse_err = Some(i % 3 != 2);
+                    gen::gen_string(&mut rg, &c)
+                })
+                .collect();
+            name_specs(&mut specs, round);
+            Plan {
+                specs,
+                params: params(&[("cases", if thorough { 5000 } else { 600 }), ("max_flip_letters", if thorough { 10 } else { 8 })]),
+                strum_features: vec!["derive".into()],
+                profiles: vec!["dev"],
+                policy: Policy::TaggedOnly,
+                rule: "programs: C01's domain without default variants; two thirds declare parse_err_ty/parse_err_fn (the emitted function counts its calls and stores its argument), one third does not. Oracle: model match => Ok and the call counter did not move; otherwise Err(e) with e carrying the caller's input byte for byte and the counter moved by exactly one, for from_str and try_from; FromStr::Err / TryFrom::Error are pinned by type ascription on a tagged line (a compile error there is a violation); without the attributes the error is ParseError::VariantNotFound. Non-trivial as C01.".into(),
+                assumptions: vec!["as C01".into()],
             }
         }
         "C04" => {
